@@ -8,24 +8,32 @@ Variable cf : cfg.
 Lemma client_refresh_of id c : find_client cf id = Some c -> client_refresh cf id = c_refresh c.
 Proof. intro Hf. unfold client_refresh. now rewrite Hf. Qed.
 
+Lemma has_refresh_split s c : has_refresh s c = true -> c_refresh c = true /\ ~ In (c_id c) (norefresh s).
+Proof.
+  unfold has_refresh. rewrite andb_true_iff, negb_true_iff. intros [A B]. split; [exact A|].
+  intro Hin. apply string_in_In in Hin. congruence.
+Qed.
+
 (* success => caller proves the token's client, grant registered, flag on; the token was
    issued (in an earlier response) to that very client *)
 Lemma bound ops h s : exec H cf ops = (h, s) ->
-  forall h1 e h2 cr rt scopes t,
-    h = h1 ++ e :: h2 -> e_op e = TokenRefresh cr rt scopes -> e_out e = OTokens t ->
+  forall h1 e h2 pl cr rt scopes t,
+    h = h1 ++ e :: h2 -> e_op e = TokenRefresh pl cr rt scopes -> e_out e = OTokens t ->
   exists n r,
     rt = Some n /\ find_rt (e_pre e) n = Some r
     /\ cred_proves cf cr (r_client r) = true
-    /\ client_refresh cf (r_client r) = true
+    /\ client_refresh cf (r_client r) = true /\ ~ In (r_client r) (norefresh (e_pre e))
     /\ f_refresh cf = true
     /\ (exists e0 t0, In e0 h1 /\ e_out e0 = OTokens t0 /\ t_rt t0 = Some n /\ t_azp t0 = r_client r).
 Proof.
-  intros Hex h1 e h2 cr rt scopes t Heq Hop Hout.
+  intros Hex h1 e h2 pl cr rt scopes t Heq Hop Hout.
   apply exec_reach in Hex. destruct (reach_split H cf h s Hex h1 e h2 Heq) as [Hr1 Hstep].
   apply reach_inv in Hr1. apply step_trans in Hstep. rewrite Hop, Hout in Hstep.
   apply trans_refresh_inv in Hstep as [n [r [c [sc [-> [Hrt [Hfc [Hr [Hfl [Hp [Hn Hiss]]]]]]]]]]].
   exists n, r. repeat (split; [solve [auto] | ]).
+  apply has_refresh_split in Hr as [Hr Hnr]. rewrite (proj1 (find_client_id cf _ _ Hfc)) in Hnr.
   split. { now rewrite (client_refresh_of _ _ Hfc). }
+  split; [exact Hnr|].
   split; [exact Hfl|].
   destruct (find_rt_in _ _ _ Hrt) as [Hin Hid].
   destruct (i_rts _ _ Hr1 _ Hin) as [_ [e0 [t0 [He0 [Ho0 [Hk0 Hm]]]]]].
@@ -33,29 +41,33 @@ Proof.
 Qed.
 
 (* every refresh step factors through finish_refresh, independently of the scope parameter *)
-Lemma refresh_factor r s cr n :
-  (exists e, forall scopes, step H cf r s (TokenRefresh cr (Some n) scopes) = (s, err r e))
+Lemma read_field_some pl (n d : nat) : form_last (place_field pl n d) = Some n.
+Proof. destruct pl; reflexivity. Qed.
+
+Lemma refresh_factor pl r s cr n :
+  (exists e, forall scopes, step H cf r s (TokenRefresh pl cr (Some n) scopes) = (s, err r e))
   \/ (exists t c, find_rt s n = Some t /\
-        forall scopes, step H cf r s (TokenRefresh cr (Some n) scopes) = finish_refresh r s t c scopes).
+        forall scopes, step H cf r s (TokenRefresh pl cr (Some n) scopes) = finish_refresh r s t c scopes).
 Proof.
-  destruct r; cbn [step]; unfold prov_refresh, legacy_refresh.
+  cbn [step]. rewrite read_grant_ok. cbn [read_field]. rewrite read_field_some.
+  destruct r; unfold prov_refresh, legacy_refresh.
   - destruct (f_refresh cf); cbn [negb]; [|left; eexists; reflexivity].
-    destruct (prov_refresh_client cf cr) as [c|e]; [|left; eexists; reflexivity].
+    destruct (prov_refresh_client cf s cr) as [c|e]; [|left; eexists; reflexivity].
     destruct (find_rt s n) as [t|] eqn:Hrt; [right; exists t, c; auto | left; eexists; reflexivity].
   - destruct (legacy_client cf cr) as [c|e]; [|left; eexists; reflexivity].
-    destruct (c_refresh c); cbn [negb]; [|left; eexists; reflexivity].
+    destruct (has_refresh s c); cbn [negb]; [|left; eexists; reflexivity].
     destruct (f_refresh cf); cbn [negb]; [|left; eexists; reflexivity].
     destruct (find_rt s n) as [t|] eqn:Hrt; [right; exists t, c; auto | left; eexists; reflexivity].
 Qed.
 
 (* requested scopes not within the granted ones: invalid_scope, nothing changes *)
-Lemma subset_refused r s cr n rt scopes s0 t0 :
-  step H cf r s (TokenRefresh cr (Some n) []) = (s0, OTokens t0) ->
+Lemma subset_refused pl r s cr n rt scopes s0 t0 :
+  step H cf r s (TokenRefresh pl cr (Some n) []) = (s0, OTokens t0) ->
   find_rt s n = Some rt -> scopes <> [] -> subset scopes (r_scopes rt) = false ->
-  step H cf r s (TokenRefresh cr (Some n) scopes) = (s, err r E_scope).
+  step H cf r s (TokenRefresh pl cr (Some n) scopes) = (s, err r E_scope).
 Proof.
   intros Hok Hrt Hne Hsub.
-  destruct (refresh_factor r s cr n) as [[e He] | [t [c [Hrt' Hf]]]].
+  destruct (refresh_factor pl r s cr n) as [[e He] | [t [c [Hrt' Hf]]]].
   - rewrite He in Hok. injection Hok as _ Hx. destruct r; discriminate.
   - rewrite Hrt in Hrt'. injection Hrt' as <-. rewrite Hf in Hok |- *.
     unfold finish_refresh in *.
@@ -63,8 +75,8 @@ Proof.
     unfold narrowed. destruct scopes as [|x l]; [congruence|]. cbn [is_nil]. now rewrite Hsub.
 Qed.
 
-Lemma success_subset r s cr rt scopes s' t :
-  step H cf r s (TokenRefresh cr rt scopes) = (s', OTokens t) ->
+Lemma success_subset pl r s cr rt scopes s' t :
+  step H cf r s (TokenRefresh pl cr rt scopes) = (s', OTokens t) ->
   exists n r0, rt = Some n /\ find_rt s n = Some r0 /\ subset scopes (r_scopes r0) = true
                /\ subset (t_scope t) (r_scopes r0) = true.
 Proof.
@@ -74,14 +86,14 @@ Proof.
   unfold issue_refresh in Hiss. injection Hiss as _ <-. cbn [t_scope]. auto.
 Qed.
 
-Lemma refusal_keeps_state r s cr rt scopes s' x :
-  step H cf r s (TokenRefresh cr rt scopes) = (s', x) -> is_tokens x = false -> s' = s.
+Lemma refusal_keeps_state pl r s cr rt scopes s' x :
+  step H cf r s (TokenRefresh pl cr rt scopes) = (s', x) -> is_tokens x = false -> s' = s.
 Proof. intros Hs Hk. apply step_trans in Hs. eapply trans_refresh_refused; eauto. Qed.
 
 (* rotation *)
 Lemma rotation ops h s : exec H cf ops = (h, s) ->
-  forall h1 e h2 cr rt scopes t,
-    h = h1 ++ e :: h2 -> e_op e = TokenRefresh cr rt scopes -> e_out e = OTokens t ->
+  forall h1 e h2 pl cr rt scopes t,
+    h = h1 ++ e :: h2 -> e_op e = TokenRefresh pl cr rt scopes -> e_out e = OTokens t ->
   exists n m new,
     rt = Some n /\ t_rt t = Some m
     /\ m = S (next (e_pre e)) /\ (forall x, In x (rtoks (e_pre e)) -> r_id x < m)
@@ -89,7 +101,7 @@ Lemma rotation ops h s : exec H cf ops = (h, s) ->
     /\ r_id new = m
     /\ find_rt (e_post e) n = None /\ find_rt (e_post e) m = Some new.
 Proof.
-  intros Hex h1 e h2 cr rt scopes t Heq Hop Hout.
+  intros Hex h1 e h2 pl cr rt scopes t Heq Hop Hout.
   apply exec_reach in Hex. destruct (reach_split H cf h s Hex h1 e h2 Heq) as [Hr1 Hstep].
   apply reach_inv in Hr1. apply step_trans in Hstep. rewrite Hop, Hout in Hstep.
   apply trans_refresh_inv in Hstep as [n [r [c [sc [-> [Hrt [Hfc [Hr [Hfl [Hp [Hn Hiss]]]]]]]]]]].
@@ -111,7 +123,7 @@ Lemma link_monotone ops h s : exec H cf ops = (h, s) ->
     subset (t_scope t2) (t_scope t1) = true
     /\ t_at_sub t2 = t_at_sub t1 /\ t_aud t2 = t_aud t1 /\ t_auth t2 = t_auth t1 /\ t_azp t2 = t_azp t1.
 Proof.
-  intros Hex t1 t2 [h1 [e1 [e2 [h2 [cr [n [sc [Heq [Hin1 [Ho1 [Hk1 [Hop2 Ho2]]]]]]]]]]]].
+  intros Hex t1 t2 [h1 [e1 [e2 [h2 [pl [cr [n [sc [Heq [Hin1 [Ho1 [Hk1 [Hop2 Ho2]]]]]]]]]]]]].
   apply exec_reach in Hex. destruct (reach_split H cf h s Hex h1 e2 h2 Heq) as [Hr1 Hstep].
   apply reach_inv in Hr1. apply step_trans in Hstep. rewrite Hop2, Ho2 in Hstep.
   apply trans_refresh_inv in Hstep as [n' [r [c [sc' [[= <-] [Hrt [Hfc [Hr [Hfl [Hp [Hn Hiss]]]]]]]]]]].
@@ -136,20 +148,20 @@ Qed.
 
 (* a rotated token fails *)
 Lemma replay ops h s : exec H cf ops = (h, s) ->
-  forall h1 e1 h2 e2 h3 n cr1 sc1 cr2 sc2,
+  forall h1 e1 h2 e2 h3 n pl1 cr1 sc1 pl2 cr2 sc2,
     h = h1 ++ e1 :: h2 ++ e2 :: h3 ->
-    e_op e1 = TokenRefresh cr1 (Some n) sc1 -> is_tokens (e_out e1) = true ->
-    e_op e2 = TokenRefresh cr2 (Some n) sc2 ->
+    e_op e1 = TokenRefresh pl1 cr1 (Some n) sc1 -> is_tokens (e_out e1) = true ->
+    e_op e2 = TokenRefresh pl2 cr2 (Some n) sc2 ->
     is_tokens (e_out e2) = false /\ e_post e2 = e_pre e2.
 Proof.
-  intros Hex h1 e1 h2 e2 h3 n cr1 sc1 cr2 sc2 Heq Ho1 Hk1 Ho2.
+  intros Hex h1 e1 h2 e2 h3 n pl1 cr1 sc1 pl2 cr2 sc2 Heq Ho1 Hk1 Ho2.
   apply exec_reach in Hex.
   assert (Heq' : h = (h1 ++ e1 :: h2) ++ e2 :: h3) by (rewrite Heq, <- app_assoc; reflexivity).
   destruct (reach_split H cf h s Hex _ e2 h3 Heq') as [Hr Hstep].
   apply reach_inv in Hr. apply step_trans in Hstep. rewrite Ho2 in Hstep.
   assert (Hin1 : In e1 (h1 ++ e1 :: h2)) by (apply in_app_iff; right; now left).
-  destruct (i_rot _ _ Hr e1 cr1 n sc1 Hin1 Ho1 Hk1) as [_ Hnone].
-  destruct (e_out e2) as [| | | | |t2| | |] eqn:Hout;
+  destruct (i_rot _ _ Hr e1 pl1 cr1 n sc1 Hin1 Ho1 Hk1) as [_ Hnone].
+  destruct (e_out e2) as [| | | | |t2| | | |] eqn:Hout;
     try (split; [reflexivity | eapply trans_refresh_refused; eauto]).
   apply trans_refresh_inv in Hstep as [n' [r [c [sc' [[= <-] [Hrt _]]]]]]. congruence.
 Qed.
@@ -176,8 +188,8 @@ Example chain_nonvacuous :
 Proof.
   split; [|vm_compute; repeat split].
   eapply chain_step; [eapply chain_step; [apply chain_nil|]|].
-  - exists (firstn 9 ex_h), (ex_ev 6), (ex_ev 9), (skipn 10 ex_h), (Basic "web" "s3cret"), 2, ["openid"; "email"].
+  - exists (firstn 9 ex_h), (ex_ev 6), (ex_ev 9), (skipn 10 ex_h), P_body, (Basic "web" "s3cret"), 2, ["openid"; "email"].
     vm_compute. repeat split. do 6 right. now left.
-  - exists (firstn 11 ex_h), (ex_ev 9), (ex_ev 11), (skipn 12 ex_h), (Basic "web" "s3cret"), 4, ["openid"].
+  - exists (firstn 11 ex_h), (ex_ev 9), (ex_ev 11), (skipn 12 ex_h), P_body, (Basic "web" "s3cret"), 4, ["openid"].
     vm_compute. repeat split. do 9 right. now left.
 Qed.
